@@ -3,6 +3,7 @@ package main
 import (
 	"fmt"
 	"go/constant"
+	"go/token"
 	"go/types"
 	"os"
 	"regexp"
@@ -83,12 +84,94 @@ func checkCLIFiles(p *Program, r *Result) {
 				pathField = m[1]
 			}
 		}
-		for _, c := range callsTo(lazyW, "os.Create") {
+		creates, _ := creatingCalls(p, lazyW)
+		for _, c := range creates {
+			// the output replaces whatever the path held: os.Create, or OpenFile with O_TRUNC (a file
+			// opened without it keeps the tail of an older, longer output: not the complete result)
+			if calleeName(c.Common()) == "os.OpenFile" {
+				fl, _ := constInt(c.Common().Args[1])
+				oTrunc, _ := osConst(p, "O_TRUNC")
+				oAppend, _ := osConst(p, "O_APPEND")
+				r.Check(fl&oTrunc != 0 && fl&oAppend == 0, lazyW.String(), "create:truncates", r.pos(c), "opened with O_TRUNC", "the output file is opened without O_TRUNC (or with O_APPEND): an existing longer file keeps its old tail, so what is left is not the result")
+			}
+			if len(c.Common().Args) == 0 {
+				continue
+			}
 			facts := tb.FactsAt(c.Block())
 			_, f1 := hasFactShort(facts, "Field(Recv.f) == nil")
 			_, f2 := hasFactShort(facts, "Field(Recv.err) == nil")
 			name := short(tb.Term(c.Common().Args[0]).String())
 			r.Check(f1 && f2 && name == "Field(Recv."+pathField+")", lazyW.String(), "create:once", r.pos(c), "os.Create(l.name) only while l.f == nil && l.err == nil", "the file is (re)created on a path where it may already be open (truncating earlier output) or under another name: "+name)
+		}
+	}
+	// a Write that reports success has a file behind it: every return with a nil error lies behind
+	// a test that the (latest) creation did not fail, or that the file is open. Otherwise a
+	// zero-length result "written" to a path that cannot be created would count as delivered.
+	{
+		isFieldLoad := func(v ssa.Value, name string) (*ssa.UnOp, bool) {
+			ld, ok := stripConv(v).(*ssa.UnOp)
+			if !ok || ld.Op != token.MUL {
+				return nil, false
+			}
+			fa, ok := ld.X.(*ssa.FieldAddr)
+			if !ok || fieldName(fa.X.Type(), fa.Field) != name || structTypeName(fa.X.Type()) != pkgCmdAge+".lazyOpener" {
+				return nil, false
+			}
+			return ld, true
+		}
+		paths, okp := p.EnumPaths(lazyW.Blocks[0])
+		bad := ""
+		n := 0
+		if !okp {
+			bad = "too many paths"
+		}
+		for _, pa := range paths {
+			if pa.End != "return" {
+				continue
+			}
+			ret := pa.Last.(*ssa.Return)
+			ei := errorResultIndex(lazyW.Signature)
+			if ei < 0 || !isNilConst(stripConv(pa.Resolve(ret.Results[ei]))) {
+				continue // an error, or whatever the file's own Write reported
+			}
+			n++
+			// position of the last store to l.err on the path
+			lastStore := -1
+			var lastStoreIn ssa.Instruction
+			for i, b := range pa.Blocks {
+				for _, in := range b.Instrs {
+					if st, ok := in.(*ssa.Store); ok {
+						if fa, ok := st.Addr.(*ssa.FieldAddr); ok && fieldName(fa.X.Type(), fa.Field) == "err" && structTypeName(fa.X.Type()) == pkgCmdAge+".lazyOpener" {
+							lastStore, lastStoreIn = i, in
+						}
+					}
+				}
+			}
+			okPath := false
+			for i := 0; i < len(pa.Blocks)-1 && i < len(pa.Edge); i++ {
+				x, eq, isTest := nilTestOf(pa.Blocks[i])
+				if !isTest || pa.Edge[i] < 0 {
+					continue
+				}
+				isNil := (pa.Edge[i] == 0) == eq
+				if ld, ok := isFieldLoad(x, "err"); ok && isNil {
+					after := i > lastStore || lastStore < 0 || (i == lastStore && ld.Block() == lastStoreIn.Block() && instrIndex(ld) > instrIndex(lastStoreIn))
+					if after {
+						okPath = true
+					}
+				}
+				if _, ok := isFieldLoad(x, "f"); ok && !isNil && (lastStore < 0 || i > lastStore) {
+					okPath = true
+				}
+			}
+			if !okPath {
+				bad = "path " + pa.String() + " returns a nil error without the outcome of the file creation having been looked at"
+			}
+		}
+		if n > 0 || bad != "" {
+			r.Check(bad == "", lazyW.String(), "write:success-has-file", "", itoa(n)+" success path(s), each behind l.err == nil", "lazyOpener.Write reports success although the output file may not exist: "+bad)
+		} else {
+			r.OK(lazyW.String(), "write:success-has-file", "", "no explicit success return: the result is the file's own")
 		}
 	}
 	// lazyOpener values are built only by newLazyOpener; -o is wrapped by it in main
